@@ -19,15 +19,7 @@ func (c *Ctx) errRootsOf(f *ssa.Function) []*ssa.Function {
 	all := c.allFuncs(c.Jen)
 	callers := map[*ssa.Function][]*ssa.Function{}
 	for _, g := range all {
-		for _, b := range g.Blocks {
-			for _, in := range b.Instrs {
-				if ci, ok := in.(ssa.CallInstruction); ok {
-					if sc := ci.Common().StaticCallee(); sc != nil {
-						callers[sc] = append(callers[sc], g)
-					}
-				}
-			}
-		}
+		callers[g] = c.callersIncludingValueUses(g)
 	}
 	roots := map[*ssa.Function]bool{}
 	var climb func(g *ssa.Function, depth int)
